@@ -35,6 +35,7 @@ class Monitor(object):
         self.dels = 0
         self.expected_dels = expected_dels
         self.bad = []
+        self.nframes = 0          # complete frames seen so far
 
     def feed(self, data):
         self.buf += data
@@ -49,6 +50,7 @@ class Monitor(object):
                 return
             payload, nl = self.buf[HDR.size:HDR.size + length], self.buf[total - 1:total]
             self.buf = self.buf[total:]
+            self.nframes += 1
             if nl != b"\n":
                 self.bad.append(("garbled-frame-trailer", "trailer %r" % (nl,)))
                 continue
@@ -96,13 +98,16 @@ class Monitor(object):
 
 
 class RecStream(simnet.SimStream):
-    __slots__ = ("monitor", "proxies", "drop_at")
+    __slots__ = ("monitor", "proxies", "drop_at", "drop_in_frame")
 
     def write(self, data):
         simnet.SimStream.write(self, data)
         self.monitor.feed(bytes(data))
         # re-entrant send: dropping the last reference runs BaseNetref.__del__ right here
         if self.proxies and self.nwrites in self.drop_at:
+            self.proxies.pop()
+        # variant: the re-entrant send starts in the middle of the SECOND packet that reaches the transport
+        if self.proxies and self.drop_in_frame is not None and self.monitor.nframes == self.drop_in_frame and self.monitor.buf:
             self.proxies.pop()
 
 
@@ -113,10 +118,14 @@ def build(nthreads, nsends, reentrant):
     a.monitor = mon
     a.proxies = []
     a.drop_at = ()
+    a.drop_in_frame = None
     if reentrant:
         cls = netref.builtin_classes_cache["builtins.list"]
         a.proxies.append(cls(conn, ("builtins.list", 1, 2)))
-        a.drop_at = (2,)       # during the second write of the first transmitted packet
+        if reentrant == "second":
+            a.drop_in_frame = 1   # in the middle of the second transmitted packet (whoever sends it)
+        else:
+            a.drop_at = (2,)      # during the second write of the first transmitted packet
     return conn, a, mon
 
 
@@ -202,6 +211,7 @@ CONFIGS = {
         ("3x1/pb2", 3, 1, False, 2, False),
         ("3x1+reentrant/pb2", 3, 1, True, 2, False),
         ("2x1+unencodable", 2, 1, False, None, False),
+        ("2x1+reentrant-in-second-packet", 2, 1, "second", None, False),
     ],
     "thorough": [
         ("2x1", 2, 1, False, None, False),
@@ -215,6 +225,8 @@ CONFIGS = {
         ("3x1+reentrant/pb3", 3, 1, True, 3, False),
         ("3x2+reentrant/pb2", 3, 2, True, 2, False),
         ("2x1+unencodable", 2, 1, False, None, False),
+        ("2x1+reentrant-in-second-packet", 2, 1, "second", None, False),
+        ("2x2+reentrant-in-second-packet", 2, 2, "second", None, False),
         ("2x2+unencodable", 2, 2, False, None, False),
         ("3x1+unencodable/pb2", 3, 1, False, 2, False),
         ("2x1/opcode", 2, 1, False, None, True),
